@@ -10,7 +10,7 @@ import FpgoVerif.Model.C15Core
                              ⟨gc2: closedM.Lock(); close(resultCh); close(opCh); Unlock⟩
                              ⟨gc3 (repaired code): for op := range opCh { answer zero }⟩
     `fixed = true` is cor.go as it is now (after cb38847): r1 is `select { case opCh <- op: … case <-doneCh: }`
-    and close() answers what is left in opCh with zero.  `fixed = false` is the code before cb38847 (the send at
+    (both ready: either, by `choice`) and close() answers what is left in opCh with zero.  `fixed = false` is the code before cb38847 (the send at
     r1 has no way out, accepted-but-unserved requests are never answered), kept for the refutation theorems.
     Callers are coroutine objects that never finish themselves (their resultCh is never closed). -/
 
@@ -46,15 +46,16 @@ structure St where
 
 def init (cap : Nat) (fixed : Bool) : St := { cap := cap, fixed := fixed }
 
-def step (s : St) : PC → Option (St × Next PC)
+def step (s : St) (choice : Bool) : PC → Option (St × Next PC)
   | .r0 id x =>
     if s.cnt .r1 ≠ 0 then none                                -- closedM held by a sender
     else if s.gflag then some (s, .fin (.okv 0))
     else some ({ s with late := if s.closeDone then s.late + 1 else s.late }, .at (.r1 id x))
   | .r1 id x =>
     if s.opClosed then some ({ s with panic := true }, .fin .panic)
+    -- `select`: with doneCh closed the escape is ready; when opCh has room too, Go picks either (`choice`)
+    else if s.fixed && s.doneClosed && (choice || !decide (s.opCh.length < s.cap)) then some (s, .fin (.okv 0))
     else if s.opCh.length < s.cap then some ({ s with opCh := s.opCh ++ [(id, x)] }, .at (.w id))
-    else if s.fixed && s.doneClosed then some (s, .fin (.okv 0))
     else none
   | .w id =>
     match s.answers.find? (·.1 == id) with
@@ -82,9 +83,9 @@ def move (c : Kind → Nat) (src : Kind) : Next PC → Kind → Nat
   | .at pc' => updK (updK c src (c src - 1)) (kind pc') (updK c src (c src - 1) (kind pc') + 1)
   | .fin _ => updK c src (c src - 1)
 
-def gstep (s : St) (pc : PC) (_choice : Bool) : Option (St × Next PC) :=
+def gstep (s : St) (pc : PC) (choice : Bool) : Option (St × Next PC) :=
   if s.cnt (kind pc) = 0 then none else
-  match step s pc with
+  match step s choice pc with
   | none => none
   | some (s', nx) => some ({ s' with cnt := move s'.cnt (kind pc) nx }, nx)
 
